@@ -166,3 +166,40 @@ Section History.
       + split; [constructor|discriminate].
   Qed.
 End History.
+
+(* ---- walking a generated term without expanding its lets (keeps the sharing of the source): every `let` becomes a
+   fresh variable with its defining equation, every decision a case split ------------------------------------------- *)
+Lemma let_intro {A B : Type} (e : A) (b : A -> B) (P : B -> Prop) : (forall x, x = e -> P (b x)) -> P (let x := e in b x).
+Proof. intros H. exact (H e eq_refl). Qed.
+Lemma if_intro {A B : Prop} {T : Type} (c : {A} + {B}) (a b : T) (P : T -> Prop) :
+  (A -> P a) -> (B -> P b) -> P (if c then a else b).
+Proof. intros; destruct c; auto. Qed.
+Ltac walk :=
+  repeat match goal with
+  | |- ?P (let x := ?e in @?b x) =>
+      let t := fresh "t" in let H := fresh "E" t in apply (@let_intro _ _ e b P); intros t H; cbv beta
+  | |- ?P (if ?c then ?a else ?b) => apply (@if_intro _ _ _ c a b P); intro
+  end.
+
+(* the two halves of a 2n-list are the same (used for "[step with mag = 0, IMU step]" twin targets) *)
+Definition halves_eq (n : nat) (o : outcome R) : Prop :=
+  match o with Val l => firstn n l = skipn n l /\ length l = (2 * n)%nat | Raise e => e = ValueError end.
+
+(* a leaf  pre ++ [a/n; b/n; c/n; d/n] ++ P  with n = ||(a,b,c,d)|| : the quaternion is unit unless (a,b,c,d) is zero *)
+Definition norm_leaf (P : list R) (o : outcome R) : Prop :=
+  match o with
+  | Val (p0 :: p1 :: p2 :: p3 :: tl) => tl = P /\ (sq4 p0 p1 p2 p3 = 1 \/ (p0 = 0 /\ p1 = 0 /\ p2 = 0 /\ p3 = 0))
+  | Val _ => False
+  | Raise e => e = ValueError
+  end.
+Lemma unit_or_zero a b c d :
+  sq4 (a / sqrt (a*a + b*b + c*c + d*d)) (b / sqrt (a*a + b*b + c*c + d*d)) (c / sqrt (a*a + b*b + c*c + d*d))
+      (d / sqrt (a*a + b*b + c*c + d*d)) = 1 \/
+  (a / sqrt (a*a + b*b + c*c + d*d) = 0 /\ b / sqrt (a*a + b*b + c*c + d*d) = 0 /\ c / sqrt (a*a + b*b + c*c + d*d) = 0 /\
+   d / sqrt (a*a + b*b + c*c + d*d) = 0).
+Proof.
+  destruct (Req_EM_T (a*a + b*b + c*c + d*d) 0) as [E|E].
+  - right. assert (a*a = 0 /\ b*b = 0 /\ c*c = 0 /\ d*d = 0) as (A & B & C & D) by (repeat split; nra).
+    apply Rsqr_0_uniq in A, B, C, D. subst. unfold Rdiv. repeat split; ring.
+  - left. apply (normalised_unit a b c d). exact E.
+Qed.
